@@ -442,3 +442,147 @@ def proto(ctx):
 
 def is_dispatch(callee):
     return getattr(callee, "role", None) == "dispatch"
+
+
+class MapRoles(object):
+    """field names of MapFuture / FlatMapFuture / MapExecutor discovered from their public constructor parameters:
+       mapf / errf   MapFuture fields set from map_fn / error_fn
+       deleg         MapFuture field that receives the constructor's `delegate` (possibly through a helper)
+       flat          FlatMapFuture's stage flag (initialised False by its constructor)
+       xfn / xerrf   MapExecutor fields keeping fn / error_fn"""
+
+    def __init__(self, ctx):
+        prog = ctx.prog
+        self.mf = mf = prog.cls("MapFuture")
+        self.fmf = fmf = prog.cls("FlatMapFuture")
+        o, init = mf.lookup("__init__")
+        ps, it = ctx.paths(init, mf, depth=3, inline=lambda callee, ev, path: callee.owner is mf)
+        stores = {}
+        for p in ps:
+            for e in p.evs("store"):
+                t = e.d["target"]
+                if q.self_field(t):
+                    stores.setdefault(t[2], set()).add(e.d["value"])
+        def field_from(pname):
+            out = [f for f, vs in stores.items() if any(contains(v, ("param", pname)) or v == ("param", pname) for v in vs)]
+            if len(out) != 1:
+                raise AnalysisError("MapFuture.__init__: field set from `%s` not unique (%s)" % (pname, out))
+            return out[0]
+        self.mapf = field_from("map_fn")
+        self.errf = field_from("error_fn")
+        self.deleg = field_from("delegate")
+        o2, finit = fmf.lookup("__init__")
+        fl = []
+        for p in ctx.paths(finit, fmf, depth=0)[0]:
+            for e in p.evs("store"):
+                if q.self_field(e.d["target"]) and e.d["value"] == ("const", False) and e.d["target"][2] not in fl:
+                    fl.append(e.d["target"][2])
+        if len(fl) != 1:
+            raise AnalysisError("FlatMapFuture.__init__: stage flag (initialised False) not unique (%s)" % fl)
+        self.flat = fl[0]
+        mx = prog.cls("MapExecutor")
+        self.xfn = ctor_param_fields(ctx, mx, "fn")
+        o3, xinit = mx.lookup("__init__")
+        self.xerrf = []
+        for p in ctx.paths(xinit, mx, depth=0)[0]:
+            for e in p.evs("store"):
+                v = e.d["value"]
+                if q.self_field(e.d["target"]) and isinstance(v, tuple) and v[0] == "call" and isinstance(v[1], tuple) and v[1][0] == "attr" and v[1][2] in ("get", "pop") and v[2][:1] == (("const", "error_fn"),) and e.d["target"][2] not in self.xerrf:
+                    self.xerrf.append(e.d["target"][2])
+        if len(self.xfn) != 1 or len(self.xerrf) != 1:
+            raise AnalysisError("MapExecutor.__init__: fields keeping fn / error_fn not identified (%s, %s)" % (self.xfn, self.xerrf))
+        self.xfn = self.xfn[0]
+        self.xerrf = self.xerrf[0]
+
+
+def map_roles(ctx):
+    if getattr(ctx, "_map_roles", None) is None:
+        ctx._map_roles = MapRoles(ctx)
+    return ctx._map_roles
+
+
+REMOVE = ("remove", "pop", "popleft")
+
+
+class Queue(object):
+    """a queueing executor: class, queue field, record class, role fields, lock fields"""
+
+    def __init__(self, ctx, cls):
+        self.cls = cls
+        self.field, self.rec, self.roles = record_roles(ctx, cls)
+        self.locks = lock_fields(ctx, cls)
+        if not self.locks:
+            raise AnalysisError("%s: no lock field found" % cls.name)
+
+    def is_queue(self, term, it, p):
+        return isinstance(term, tuple) and term[0] == "attr" and term[2] == self.field and it.type_of(term[1], p) == "C:" + self.cls.key
+
+    def lock_held(self, ev, owner):
+        return any(l[1][0] == "attr" and l[1][1] == owner and l[1][2] in self.locks for l in ev.locks if isinstance(l[1], tuple))
+
+    def lock_term(self, ev, owner):
+        for l in ev.locks:
+            if isinstance(l[1], tuple) and l[1][0] == "attr" and l[1][1] == owner and l[1][2] in self.locks:
+                return l[1]
+        return None
+
+
+def removers(ctx, Qx):
+    """methods of the executor that search the queue for the job they are given (by identity) and remove it"""
+    out = set()
+    for c in Qx.cls.mro():
+        if not isinstance(c, ClassInfo):
+            continue
+        for m in c.methods.values():
+            if len(m.params) < 2 or Qx.cls.lookup(m.name)[1] is not m:
+                continue
+            ps, it = ctx.paths(m, Qx.cls, depth=0)
+            for p in ps:
+                for e in p.calls():
+                    if e.fn is m and q.call_name(e) in REMOVE and Qx.is_queue(q.recv(e), it, p) and _removes(e, ("param", m.params[1]), p):
+                        out.add(m.key)
+    return out
+
+
+def removal_actions(p, it, Qx, rem):
+    """removals from the queue on this path: [(event, removed job or None)] -- a call of a remover helper counts
+    once (what happens inside it is its own business)"""
+    remcalls = [e for e in p.calls() if e.d["callee"] is not None and e.d["callee"].key in rem]
+    top = [e for e in remcalls if not any(c.node in e.stack for c in remcalls if c is not e)]
+    acts = [(e, e.d["args"][0] if e.d["args"] else None) for e in top]
+    for e in p.calls():
+        if q.call_name(e) in REMOVE and Qx.is_queue(q.recv(e), it, p) and not any(c.node in e.stack for c in top):
+            acts.append((e, None))
+    acts.sort(key=lambda x: x[0].seq)
+    return acts
+
+
+def _removes(e, J, p):
+    """does the removal event e remove job J?  remove(J) / pop(index of the element found identical to J)"""
+    a = e.d["args"]
+    if q.call_name(e) == "remove":
+        return a == (J,)
+    if q.call_name(e) == "pop" and len(a) == 1:
+        idx = a[0]
+        if not (isinstance(idx, tuple) and idx[0] in ("index", "unpack")):
+            return False
+        for t, val, b in q.atoms(p):
+            if val is True and b.seq < e.seq and isinstance(t, tuple) and t[0] == "cmp" and t[1] == "is" and J in (t[2], t[3]):
+                other = t[3] if t[2] == J else t[2]
+                if _same_iteration(idx, other):
+                    return True
+        return False
+    return False
+
+
+def _same_iteration(idx, elem):
+    """index term and element term stem from the same enumerate() iteration"""
+    def root(t):
+        while isinstance(t, tuple) and t and t[0] == "unpack":
+            t = t[1]
+        return t
+    ri, re_ = root(idx), root(elem)
+    if ri == re_:
+        return True
+    # index(src, site) vs elem(src, site)
+    return isinstance(ri, tuple) and isinstance(re_, tuple) and len(ri) >= 3 and len(re_) >= 3 and ri[1:3] == re_[1:3]
